@@ -546,6 +546,16 @@ def splice_fn(repo, file, item_path, sections, trait=None, nth=0, opts=(), canar
             pat = ' '.join(''.join(t.text for t in toks[body_ci[pm + 2] + 1:body_ci[q]]).split())
             if ':' in pat:
                 raise AnchorLost('%s: //@%s: typed closure parameter' % (item_path, dk))
+            if method == 'all':
+                # X2f: `ITER.all(|PAT| BODY)` written as the loop std defines it to be (stop at the first element for which the closure is false)
+                kk = re.sub(r'\W', '_', dk_id)
+                ed.ins_before(body_ci[p0], '({ let mut cv_any%s = true; %s let mut cv_ait%s = (' % (kk, sections.get('any_before ' + dk_id, '').strip(), kk))
+                ed.replace(body_ci[pm - 1], body_ci[q], ').into_iter(); while let Some(%s) = cv_ait%s.next() %s { %s if !(' % (
+                    pat, kk, sections.get('any_inv ' + dk_id, '').strip(), sections.get('any_body ' + dk_id, '').strip()))
+                ed.replace(call_close, call_close, ') { cv_any%s = false; break; } } %s cv_any%s })' % (kk, sections.get('any_after ' + dk_id, '').strip(), kk))
+                rules['X2f-all'] = rules.get('X2f-all', 0) + 1
+                dropped.append('%s:%d Iterator::all with an inline closure written as the loop it abbreviates (X2f)' % (file, toks[body_ci[pm]].line))
+                continue
             if method == 'any':
                 # X2f: `ITER.any(|PAT| BODY)` written as the loop std defines it to be (Iterator::any: stop at the first element for
                 # which the closure is true); the ghost code and the loop contract come from `//@any_before K`, `//@any_inv K`,
